@@ -76,14 +76,19 @@ var bgMu sync.Mutex
 // package (build tag verif): `spawn` fires in the request handler before the goroutine starts (hence before the
 // response is returned), `done` when it ends.  waitBackground is exact, not a guess from quiet time.
 var bgSpawned, bgDone, bgParked int64
-var bgParkFn atomic.Value // func() chan struct{}: the channel the next goroutine reaching `beforeSnapshot` parks on (or nil)
+var bgOnSpawn atomic.Value // func(): called in the request handler right before its post-push goroutine starts
+var bgParkFn atomic.Value  // func() chan struct{}: the channel the next goroutine reaching `beforeSnapshot` parks on (or nil)
 
 func installBgHook() {
 	bgParkFn.Store((func() chan struct{})(nil))
+	bgOnSpawn.Store((func())(nil))
 	verifhook.SetHook(func(p string) {
 		switch p {
 		case "server.postpush.spawn":
 			atomic.AddInt64(&bgSpawned, 1)
+			if f, ok := bgOnSpawn.Load().(func()); ok && f != nil {
+				f()
+			}
 		case "server.postpush.done":
 			atomic.AddInt64(&bgDone, 1)
 		case "server.postpush.beforeSnapshot":
@@ -353,7 +358,17 @@ func (w *sworld) waitGateOrDone(spawnedBefore int64) {
 		return
 	}
 	dl := time.Now().Add(20 * time.Second)
+	lastLog, quietSince := -1, time.Now()
 	for time.Now().Before(dl) && w.bgRunning() > 0 {
+		// an updater that waits for the snapshot lock behind one the harness already holds (an earlier hold on the same
+		// datatype) never reaches the gate: quiet time decides, as in waitBackground
+		if atomic.LoadInt64(&bgParked) > 0 || len(w.kit.Mongo.Held()) > 0 {
+			if n := len(w.kit.Mongo.Log()); n != lastLog {
+				lastLog, quietSince = n, time.Now()
+			} else if time.Since(quietSince) > 30*time.Millisecond {
+				return
+			}
+		}
 		time.Sleep(200 * time.Microsecond)
 	}
 }
@@ -484,6 +499,15 @@ func (w *sworld) stepSync(c int, rs []int, fault string, hold int, mut *mutation
 		if fault == "nosnap" || fault == "holdsnap" {
 			w.kit.Mongo.SetGate(func(c memmongo.CmdRecord) bool { return c.Coll == "-_-Snapshots" && c.Name == "find" })
 		}
+		if fault == "holdread" {
+			// the background updater of this push is stopped AFTER it has read the latest snapshot, at its read of the later
+			// operations (the request's own reads of that collection are over when the post-push goroutine is spawned):
+			// between reading and writing.  Later pushes of the datatype run their updaters meanwhile.
+			bgOnSpawn.Store(func() {
+				w.kit.Mongo.SetGate(func(c memmongo.CmdRecord) bool { return c.Coll == "-_-Operations" && c.Name == "find" })
+				bgOnSpawn.Store((func())(nil))
+			})
+		}
 		spawnedBefore := atomic.LoadInt64(&bgSpawned)
 		parkedBefore := atomic.LoadInt64(&bgParked)
 		if fault == "holdbg" {
@@ -524,6 +548,11 @@ func (w *sworld) stepSync(c int, rs []int, fault string, hold int, mut *mutation
 			w.kit.Mongo.ReleaseAll()
 			w.waitBackground()
 			w.kit.Mongo.FailFrom(0)
+		}
+		if fault == "holdread" {
+			bgOnSpawn.Store((func())(nil))
+			w.waitGateOrDone(spawnedBefore)
+			w.kit.Mongo.SetGate(nil)
 		}
 		if fault == "holdsnap" {
 			// the background updater of this push stays blocked at its first command until `release`
@@ -722,6 +751,14 @@ func (w *sworld) stepStore() (J, J, bool) {
 	obs := J{}
 	hung := guarded(obs, func() {
 		st := w.storeJ()
+		// the recorded version of every user-visible document, also in lite dumps (C11: it never decreases)
+		uv := J{}
+		for _, u := range st["userDocs"].([]interface{}) {
+			if uj, ok := u.(J); ok {
+				uv[fmt.Sprint(uj["col"])+"/"+fmt.Sprint(uj["key"])] = uj["ver"]
+			}
+		}
+		obs["userVers"] = uv
 		if w.lite {
 			st["snapshots"] = []interface{}{}
 			st["userDocs"] = []interface{}{}
